@@ -36,6 +36,7 @@ var (
 	indices  = flag.String("indices", "", "comma separated run indices (instead of -from/-to/-stride)")
 	probeOut = flag.String("probe", "", "probe the corpus with the library under test, write the sample table here and exit")
 	catFile  = flag.String("cat", "", "sample table written by -probe (the worker then executes no library code before its first run)")
+	freeMode = flag.Bool("free", false, "free-running mode: the library starts goroutines or blocks on channels")
 	planOnly = flag.Bool("planonly", false, "print the plans of the selected indices without executing them")
 	cpuprof  = flag.String("cpuprofile", "", "write a CPU profile (development)")
 )
@@ -53,7 +54,7 @@ type infoRec struct {
 	NumFocusedQ int            `json:"focused_quick"`
 	NumFocusedT int            `json:"focused_thorough"`
 	GoVersion   string         `json:"go_version"`
-	GroupsQ     [][2]int       `json:"groups_quick"`    // [from,to) run index ranges that share one worker process
+	GroupsQ     [][2]int       `json:"groups_quick"` // [from,to) run index ranges that share one worker process
 	GroupsT     [][2]int       `json:"groups_thorough"`
 }
 
@@ -81,6 +82,7 @@ func main() {
 			defer pprof.StopCPUProfile()
 		}
 	}
+	harness.FreeMode = *freeMode
 	harness.ProbeFile = *catFile
 	harness.InitHarness()
 	if *probeOut != "" {
